@@ -431,6 +431,9 @@ func c01Run(input string) string {
 		} else if mut == "forge:mallory" {
 			m, applied = envForgeMallory(c, parties)
 			changed = true
+		} else if mut == "forge:apumallory" {
+			m, applied = envForgeApuMallory(c, parties)
+			changed = true
 		} else if strings.HasPrefix(mut, "forge:") {
 			m, applied = envForgeHand(c, parties, strings.TrimPrefix(mut, "forge:"))
 			changed = true
@@ -949,7 +952,8 @@ func c02Gen(r *Rng, tier string) []string {
 				en = r.Pick([]string{"xc", "gcm"})
 			}
 			cfg = fmt.Sprintf("%s,%s,%s,%d,%s,%s", kd, kt, en, 2+r.N(2), r.Pick([]string{"j", "b40"}), r.Pick([]string{"dk", "dd"}))
-			mut = r.Pick([]string{"forge:apu", "forge:apu+skid", "forge:skid", "corecip", "corecip", "forge:mallory", "forge:mallory"})
+			mut = r.Pick([]string{"forge:apu", "forge:apu+skid", "forge:skid", "corecip", "corecip", "forge:mallory", "forge:mallory",
+				"forge:apumallory", "forge:apumallory"})
 		case c < 9:
 			mut = fmt.Sprintf("flip:%s:999", r.Pick(fields)) // last character: base64 trailing bits
 		case c < 10:
